@@ -26,6 +26,10 @@ class Module:
             self.tree = ast.parse(source, filename=path)
         except SyntaxError as e:  # pragma: no cover
             raise AnalysisError(f"cannot parse {relpath}: {e}") from e
+        # private helpers that no property names as an anchor are transparent: inline them into their callers
+        from .inline import inline_helpers
+
+        self.inlined_calls = inline_helpers(self.tree)
         for parent in ast.walk(self.tree):
             for child in ast.iter_child_nodes(parent):
                 child._parent = parent  # type: ignore[attr-defined]
